@@ -167,7 +167,8 @@ package traversal
 //   across a link: the transformed block is stored under the old link's prototype and the new link assigned
 //@   before Fill assert[C16] carg2 == lnk && carg3 == nb
 //@   before Store assert[C16] carg2 == linking.protoOf(lnk.lid) && nb.set && carg3.val == nb.out
-//@   before AssignLink assert[C16] carg1 == lnk && lnk != nil
+//@   after Store let stored = result0
+//@   before AssignLink assert[C16] carg1 == stored && stored != nil
 //@   ensures[C16] err == nil ==> datamodel.slotdone(na, na.out)
 //@   ensures[C16] err == nil && len(p.segments) > 0 && n == nil ==> na.out == datamodel.vapp(datamodel.vemptymap(), datamodel.vstring(datamodel.segstr(p.segments[0])), datamodel.vchild(na.out, 0))
 //@   ensures[C16] err == nil && len(p.segments) > 0 && n != nil && datamodel.vkind(n.val) == datamodel.Kind_Map && 0 <= datamodel.vidx(n.val, datamodel.segstr(p.segments[0])) && datamodel.vidx(n.val, datamodel.segstr(p.segments[0])) < datamodel.vlen(n.val)
